@@ -536,7 +536,8 @@ class Gen:
         self.metas = []   # gauge / inexact / invalid / taint
         self.dead = False
         self.label = 0
-        self.contains_f12 = False
+        self.contains_f12 = False   # a fermionic expand_dims with explicit odd charge was generated (known defect F12)
+        self.contains_f13 = False   # a solve with fermionic odd-parity matrix was generated (known defect F13)
         self.focus = None   # set of slots; a step must read at least one of them
         self.chain = False  # primary operand must be the latest array value
         self.inplace_rate = 0.0
@@ -630,6 +631,8 @@ class Gen:
         op, slot, args = step
         if op == "expand_dims" and "c" in args and is_f(self.vals[slot]) and G.par(self.sym, ucharge(args["c"])):
             self.contains_f12 = True
+        if op == "solve" and is_f(self.vals[slot]) and G.par(self.sym, self.vals[slot].charge):
+            self.contains_f13 = True
         try:
             res = thunk()
         except Exception:
